@@ -34,13 +34,14 @@ pub fn arith() -> ZooLang {
         ]))
         .rule("unary", prec(4, seq(vec![s("-"), field("arg", e())])))
         .rule("paren", seq(vec![s("("), e(), s(")")]))
-        .rule("call", prec(5, seq(vec![field("fn", sym("var")), s("("), sep(",", e()), s(")")])))
+        // (the same field on every element of a separated list: it reaches the elements through a hidden repeat node)
+        .rule("call", prec(5, seq(vec![field("fn", sym("var")), s("("), sep(",", field("arg", e())), s(")")])))
         .rule("number", pat("[0-9]+"))
         .rule("var", pat("[a-z]+"));
     ZooLang {
         name: "arith", spec: spec(g, None),
         lexemes: vec!["1", "x", "+", "*", "^", "-", "(", ")", ",", " "],
-        seeds: vec!["", "1", "1+2*3", "(1+x)*y^2^3", "-x*-(y+1)", "f(1,g(x),y)-2", "1 +\n 2 *\n  (3 - x)", "1+", "(1", "1 2", "f(,)", "((((1))))", "a*b+c*d-e*f+g^h^i"],
+        seeds: vec!["", "1", "1+2*3", "(1+x)*y^2^3", "-x*-(y+1)", "f(1,g(x),y)-2", "1 +\n 2 *\n  (3 - x)", "1+", "(1", "1 2", "f(,)", "((((1))))", "a*b+c*d-e*f+g^h^i", "f(1,2,3,4)"],
         skippable: b" \t\r\n", has_scanner: false,
     }
 }
@@ -183,10 +184,52 @@ pub fn lookfar() -> ZooLang {
     }
 }
 
+/// Groups `name 7 {+ k = 1; ... }` / `name 7 {- ... }`: whether the leading name is a head_a or a head_b is known only
+/// after the `+` / `-` inside the braces, so the parser carries two stack versions for a few tokens at every group (a GLR
+/// fork that is resolved inside the following large sibling subtree).
+pub fn groups() -> ZooLang {
+    let entry = || seq(vec![sym("identifier"), s("="), sym("number"), s(";")]);
+    let g = G::new("groups")
+        .conflict(&["head_a", "head_b"])
+        .rule("program", rep(choice(vec![sym("group_a"), sym("group_b")])))
+        .rule("group_a", seq(vec![sym("head_a"), sym("number"), sym("body_a")]))
+        .rule("group_b", seq(vec![sym("head_b"), sym("number"), sym("body_b")]))
+        .rule("head_a", sym("identifier"))
+        .rule("head_b", sym("identifier"))
+        .rule("body_a", seq(vec![s("{"), s("+"), rep(sym("entry")), s("}")]))
+        .rule("body_b", seq(vec![s("{"), s("-"), rep(sym("entry")), s("}")]))
+        .rule("entry", entry())
+        .rule("identifier", pat("[a-z]+"))
+        .rule("number", pat("[0-9]+"));
+    ZooLang {
+        name: "groups", spec: spec(g, None),
+        lexemes: vec!["a", "7", "{", "+", "-", "}", "=", ";", " "],
+        seeds: vec!["", "a 7 {+ }", "a 7 {- k = 1; }", "a 7 {+ k = 1; k = 2; } b 8 {- k = 3; }", "a 7 { k = 1; }", "a 7 {+ k = 1;"],
+        skippable: b" \t\r\n", has_scanner: false,
+    }
+}
+
 pub const INDENT_SCANNER: &str = include_str!("../../zoo/indent_scanner.c");
 pub const PSTRING_SCANNER: &str = include_str!("../../zoo/pstring_scanner.c");
 
 /// Python-like blocks; the scanner keeps an indent stack which it serialises completely.
+/// `levels` nested blocks: the scanner's serialised state is 1 + levels + 1 bytes at the innermost tokens (an external
+/// scanner state of more than 24 bytes is kept on the heap, shorter ones inline in the token).
+pub fn deep_indent_doc(levels: usize) -> String {
+    let mut s = String::new();
+    for i in 0..levels { s.push_str(&" ".repeat(i)); s.push_str("a:\n"); }
+    s.push_str(&" ".repeat(levels)); s.push_str("b c\n");
+    s.push_str(&" ".repeat(levels)); s.push_str("d\n");
+    s
+}
+
+/// `levels` percent-strings nested through interpolations: 1 + 3 * levels bytes of scanner state.
+pub fn deep_pstring_doc(levels: usize) -> String {
+    format!("{}x{} w", "%(a#{".repeat(levels), "}b)".repeat(levels))
+}
+
+fn leak(s: String) -> &'static str { Box::leak(s.into_boxed_str()) }
+
 pub fn indent() -> ZooLang {
     let g = G::new("indent")
         .external(sym("_newline")).external(sym("_indent")).external(sym("_dedent"))
@@ -203,6 +246,8 @@ pub fn indent() -> ZooLang {
         seeds: vec![
             "", "a\n", "a b\n", "a:\n b\n", "a:\n b\n c\nd\n", "a:\n b:\n  c\n d\ne\n", "a:\n b:\n  c\n", "a:\n  b\n  c\n", "a:\nb\n", "a:\n b\n  c\n",
             "a\n\n\nb\n", "a:\n\n b\n\nc\n", "a", "a:\n b", "a:\n b:\n  c:\n   d\n  e\n f\ng\n", " a\n",
+            // scanner states of 24 (inline) and 25, 28 bytes (heap)
+            leak(deep_indent_doc(22)), leak(deep_indent_doc(23)), leak(deep_indent_doc(26)),
         ],
         skippable: b" \t\r\n", has_scanner: true,
     }
@@ -225,6 +270,8 @@ pub fn pstring() -> ZooLang {
         seeds: vec![
             "", "a 1", "%(a)", "%(a(b)c)", "%[a(b]", "%(a) %[b]", "%(a#{b 1}c)", "%(a#{%[x]}c)", "(a %(b) c)", "%(a", "%(a(b)", "%(a#{b)", "a) b", "%(a#{(b)}c) d",
             "%(x\ny)", "%((()))",
+            // scanner states of 22 (inline) and 25, 28 bytes (heap)
+            leak(deep_pstring_doc(7)), leak(deep_pstring_doc(8)), leak(deep_pstring_doc(9)),
         ],
         skippable: b" \t\r\n", has_scanner: true,
     }
@@ -300,7 +347,7 @@ pub fn core_zoo() -> Vec<ZooLang> {
 pub fn by_name(name: &str) -> Option<ZooLang> {
     match name {
         "arith" => Some(arith()), "stmts" => Some(stmts()), "jsonish" => Some(jsonish()), "glr" => Some(glr()), "lexla" => Some(lexla()),
-        "indent" => Some(indent()), "pstring" => Some(pstring()), "lookfar" => Some(lookfar()), "tmpl" => Some(tmpl()), "tagl" => Some(tagl()),
+        "indent" => Some(indent()), "pstring" => Some(pstring()), "lookfar" => Some(lookfar()), "groups" => Some(groups()), "tmpl" => Some(tmpl()), "tagl" => Some(tagl()),
         _ => None,
     }
 }
